@@ -393,3 +393,135 @@ example : advance [3, 4, 5] 6 = some ([4, 5, 6], 0) ∧ isValid [4, 5, 6] 6 = so
 example : Valid 6 [0, 1, 5] := by unfold Valid; decide
 
 end AITB.CursorUtil
+
+/-! ## set_union_inplace: with the reserved capacity no `push_back` reallocates under the live read cursors -/
+namespace AITB.CursorUtil
+
+theorem setDiffLoop_total (rhs : List Nat) (mid cap : Nat) (hcap : mid + rhs.length ≤ cap) :
+    ∀ (fuel i j : Nat) (buf : List Nat), mid ≤ buf.length → buf.length ≤ mid + i → i ≤ rhs.length →
+      (rhs.length - i) + (mid - j) < fuel →
+      ∃ r, setDiffLoop rhs mid cap fuel i j buf = some r ∧ r.take mid = buf.take mid ∧ mid ≤ r.length ∧ r.length ≤ mid + rhs.length := by
+  intro fuel
+  induction fuel with
+  | zero => intro i j buf _ _ _ h; omega
+  | succ fuel ih =>
+    intro i j buf hb1 hb2 hi hf
+    unfold setDiffLoop
+    by_cases h1 : i < rhs.length
+    · simp only [h1, if_true]
+      have e1 : rhs[i]? = some rhs[i] := List.getElem?_eq_getElem h1
+      have hpush : ∀ a, pushLive buf cap a = some (buf ++ [a]) := by
+        intro a; unfold pushLive; rw [if_pos (by omega)]
+      have htk : ∀ a, (buf ++ [a]).take mid = buf.take mid := by
+        intro a; rw [List.take_append_of_le_length hb1]
+      by_cases h2 : j < mid
+      · simp only [h2, if_true]
+        have e2 : buf[j]? = some (buf[j]'(by omega)) := List.getElem?_eq_getElem (by omega)
+        simp only [e1, e2]
+        split
+        · rw [hpush]; simp only [Option.bind_some]
+          obtain ⟨r, hr, h3, h4⟩ := ih (i+1) j (buf ++ [rhs[i]]) (by simp; omega) (by simp; omega) (by omega) (by omega)
+          exact ⟨r, hr, by rw [h3, htk], h4⟩
+        · split
+          · exact ih i (j+1) buf hb1 hb2 hi (by omega)
+          · exact ih (i+1) (j+1) buf hb1 (by omega) (by omega) (by omega)
+      · simp only [h2, if_false, e1]
+        rw [hpush]; simp only [Option.bind_some]
+        obtain ⟨r, hr, h3, h4⟩ := ih (i+1) j (buf ++ [rhs[i]]) (by simp; omega) (by simp; omega) (by omega) (by omega)
+        exact ⟨r, hr, by rw [h3, htk], h4⟩
+    · simp only [h1, if_false]
+      exact ⟨buf, rfl, rfl, hb1, by omega⟩
+
+/-- **setUnion_no_realloc** — for ALL vectors, with a reserved capacity of at least `lhs.size() + rhs.size()` (what the source
+    asks for, pinned by `Gen.C10Sites`) the difference pass never pushes beyond the capacity, never reads outside `lhs`/`rhs`,
+    and leaves the old elements of `lhs` in place for `inplace_merge`. -/
+theorem setUnion_no_realloc (lhs rhs : List Nat) (cap : Nat) (hcap : lhs.length + rhs.length ≤ cap) :
+    ∃ r, setUnionInplace lhs rhs cap = some r ∧ r.length ≤ lhs.length + rhs.length := by
+  unfold setUnionInplace
+  obtain ⟨r, hr, _, h2, h3⟩ := setDiffLoop_total rhs lhs.length (max cap lhs.length) (by omega) (lhs.length + rhs.length + 1) 0 0 lhs
+    (Nat.le_refl _) (by omega) (by omega) (by omega)
+  refine ⟨inplaceMerge r lhs.length, by simp [hr], ?_⟩
+  unfold inplaceMerge
+  rw [List.length_merge]; simp; omega
+
+/-- under-reserving by one (the seeded change C10-3) is unsafe: the second push reallocates while `set_difference` still reads `lhs` -/
+theorem setUnion_underreserve_witness : setUnionInplace [1] [2, 3] 2 = none := by decide
+
+example : setUnionInplace [1, 4] [2, 4, 7] 5 = some [1, 2, 4, 7] := by
+  simp [setUnionInplace, setDiffLoop, pushLive, inplaceMerge]
+
+/-! ## sequential_sorted_contains / veccmp -/
+
+theorem skipLess_spec (v : List Nat) (e : Nat) : ∀ (fuel i : Nat), i ≤ v.length → v.length - i < fuel →
+    ∃ i', skipLess v e fuel i = some i' ∧ i ≤ i' ∧ i' ≤ v.length := by
+  intro fuel
+  induction fuel with
+  | zero => intro i _ h; omega
+  | succ fuel ih =>
+    intro i hi hf
+    unfold skipLess
+    by_cases h : i < v.length
+    · simp only [h, if_true, List.getElem?_eq_getElem h]
+      split
+      · obtain ⟨i', h1, h2, h3⟩ := ih (i+1) (by omega) (by omega)
+        exact ⟨i', h1, by omega, h3⟩
+      · exact ⟨i, rfl, Nat.le_refl _, hi⟩
+    · simp only [h, if_false]; exact ⟨i, rfl, Nat.le_refl _, hi⟩
+
+theorem containsLoop_total (v elems : List Nat) : ∀ (fuel i j : Nat), i ≤ v.length → elems.length - j < fuel →
+    ∃ r, containsLoop v elems fuel i j = some r := by
+  intro fuel
+  induction fuel with
+  | zero => intro i j _ h; omega
+  | succ fuel ih =>
+    intro i j hi hf
+    unfold containsLoop
+    by_cases h : j < elems.length
+    · simp only [h, if_true, List.getElem?_eq_getElem h]
+      obtain ⟨i', h1, h2, h3⟩ := skipLess_spec v elems[j] (v.length + 1) i hi (by omega)
+      simp only [h1]
+      by_cases h4 : i' = v.length
+      · simp [h4]
+      · have h5 : i' < v.length := by omega
+        simp only [h4, if_false, List.getElem?_eq_getElem h5]
+        split
+        · exact ⟨_, rfl⟩
+        · exact ih (i'+1) (j+1) (by omega) (by omega)
+    · simp only [h, if_false]; exact ⟨_, rfl⟩
+
+theorem veccmpLoop_total (l r : List Nat) (h : l.length ≤ r.length) : ∀ (fuel i : Nat), l.length - i < fuel →
+    ∃ x, veccmpLoop l r fuel i = some x := by
+  intro fuel
+  induction fuel with
+  | zero => intro i h; omega
+  | succ fuel ih =>
+    intro i hf
+    unfold veccmpLoop
+    by_cases hi : i < l.length
+    · have hr : i < r.length := by omega
+      simp only [hi, if_true, List.getElem?_eq_getElem hi, List.getElem?_eq_getElem hr]
+      split
+      · exact ih (i+1) (by omega)
+      · exact ⟨_, rfl⟩
+    · simp only [hi, if_false]; exact ⟨_, rfl⟩
+
+/-- **veccmp_no_oob** — under the documented precondition (equal sizes; `lhs.size() ≤ rhs.size()` suffices) no read is outside -/
+theorem veccmp_no_oob (l r : List Nat) (h : l.length ≤ r.length) : ∃ x, veccmp l r = some x :=
+  veccmpLoop_total l r h _ 0 (by omega)
+
+/-- without it the scan runs off the shorter right-hand side -/
+theorem veccmp_oob_witness : veccmp [1, 2] [1] = none := by decide
+
+/-- **sortedContains_no_oob** — `sequential_sorted_contains(v, elems)` reads inside both vectors for ALL contents
+    (under its asserted precondition `elems.size() ≤ v.size()`; the scanning branch needs no precondition at all) -/
+theorem sortedContains_no_oob (v elems : List Nat) (_h : elems.length ≤ v.length) : ∃ r, sortedContains v elems = some r := by
+  unfold sortedContains
+  split
+  · obtain ⟨x, hx⟩ := veccmp_no_oob v elems (by omega); rw [hx]; exact ⟨_, rfl⟩
+  · exact containsLoop_total v elems _ 0 0 (by omega) (by omega)
+
+example : sortedContains [1, 3, 5, 7] [3, 7] = some true := by decide
+example : sortedContains [1, 3, 5, 7] [3, 6] = some false := by decide
+example : sortedContains [1, 3] [1, 3] = some true := by decide
+
+end AITB.CursorUtil
